@@ -73,6 +73,9 @@ def build():
                   ("T-ITER", r"cert\s*\.identifiers\s*\.iter\(\)\s*\.filter\(\|e\| e\.id_type == IdentifierType::(?P<t>Dns|Ip)\)\s*\.map\(\|e\| e\.value\.to_owned\(\)\)\s*\.collect\(\)",
                    lambda m: "crate::shims::values_of_type(&cert.identifiers, IdentifierType::" + m.group("t") + ")", 2),
                   ("T-ITER", r"for \(data, hook_type\) in hook_datas\.iter\(\)", "for (data, hook_type) in it4: hook_datas.iter()"),
+                  # T-CLOSURE: a pure predicate closure gets `ensures result == its own body`
+                  ("T-CLOSURE", r"let break_fn = \|(?P<p>\w+): &(?P<t>\w+)\| (?P<body>[^;{}]+);",
+                   lambda m: f"let break_fn = |{m.group('p')}: &{m.group('t')}| -> (b__: bool) ensures b__ == ({m.group('body')}) {{ {m.group('body')} }};", None),
                   ],
         at=[("after_stmt", "NewOrder::new(", 1, "let ghost order_struct__ = new_order;"),
             ("after_stmt", "serde_json::to_string(&new_order)", 1, """
@@ -100,6 +103,11 @@ def build():
                     // only a challenge of the type configured for this identifier is acted on
                     assert(same_type(current_identifier.challenge, *challenge)); //@C05.only_challenges_of_the_configured_type_are_acted_on
                 }"""),
+            ("before_stmt", "http::get_certificate(", 1, """
+    proof {
+        // the certificate is fetched only from an order the CA reports valid (an announced URL alone is not an issued certificate)
+        assert(order.status is Valid); //@C03.certificate_is_downloaded_only_from_a_valid_order,C07.certificate_is_downloaded_only_from_a_valid_order
+    }"""),
             ("before_stmt", "hook_datas.clear()", 1, "proof { assert(hook_datas@.skip(hook_datas@.len() as int) =~= Seq::empty()); }"),
             ("after_stmt", "hook_datas.clear()", 1, "proof { assert(clean_views(hook_datas@) =~= Seq::empty()); }"),
             ])})
